@@ -485,5 +485,29 @@ theorem sound_rirm (j : JVal) (o : IrmObs) (c : Clause) (h : rirmMonitor j o = s
     obtain ⟨l, hl⟩ := h2 rfl
     simp [rirmMonitor, hl] at h
 
+/-! ## the `CompleteReference` codec -/
+
+/-- marshal → unmarshal of a reference: a consistent one is written and comes back as itself, an inconsistent one is
+refused -/
+def P_refRoundtrip (r : CRef) (o : RefRtObs) : Prop :=
+  (refCheck r = .ok () → ∃ v, o = .written v (some r)) ∧ (refCheck r ≠ .ok () → o = .refused)
+
+theorem sound_refRt (r : CRef) (o : RefRtObs) (c : Clause) (h : refRtMonitor r o = some c) : ¬ P_refRoundtrip r o := by
+  rintro ⟨h1, h2⟩
+  by_cases hc : refCheck r = .ok ()
+  · obtain ⟨v, rfl⟩ := h1 hc
+    simp [refRtMonitor, hc] at h
+  · rw [h2 hc] at h
+    simp [refRtMonitor, hc] at h
+
+/-- unmarshal → marshal: what is accepted is consistent, and is written again as the encoding of that reference -/
+def P_refAccepted (o : RefDecObs) : Prop :=
+  o = .rejected ∨ ∃ r w v, o = .accepted r (some w) ∧ refCheck r = .ok () ∧ encodeRef r = .ok v ∧ sameJ w v = true
+
+theorem sound_refDec (o : RefDecObs) (c : Clause) (h : refDecMonitor o = some c) : ¬ P_refAccepted o := by
+  rintro (rfl | ⟨r, w, v, rfl, hc, hw, hs⟩)
+  · simp [refDecMonitor] at h
+  · simp [refDecMonitor, hc, hw, hs] at h
+
 end Mon
 end Wire
